@@ -24,7 +24,7 @@ TRUSTED_BASE = [
     "Coq 8.16.1 kernel (coqc, full .vo build; vm_compute used for finite sweeps and witnesses; no native_compute)",
     "no axioms: every property theorem is 'Closed under the global context' (checked from Print Assumptions output on each run)",
     "hand-written Gallina model of go/mcap, go/ros and python/mcap (coq/theories/*.v), tied to /repo by differential execution on each run",
-    "translators: tools/gotrans (Go AST) + tools/gen_layout.py regenerate Layout_gen.v (record read/write layouts of parse.go and writer.go) and tools/common.py / tools/gen_c17.py regenerate Consts_gen.v / Vectors_gen.v on each run; LayoutTie.v, ConstsTie.v and properties/C17.v are re-proved against them",
+    "translators: tools/gotrans (Go AST) + tools/gen_layout.py regenerate Layout_gen.v (record read/write layouts of parse.go and writer.go), tools/gotrans/decisions.go + tools/gen_decisions.py regenerate DecisionsR_gen.v / DecisionsW_gen.v (28 boolean decisions of the readers, read options and writer), and tools/common.py / tools/gen_c17.py regenerate Consts_gen.v / Vectors_gen.v on each run; LayoutTie.v, DecisionTieR.v, DecisionTieW.v, ConstsTie.v and properties/C17.v are re-proved against them",
     "extraction: ExtrOcamlBasic only (bool, option, unit, list, prod, sumbool, sumor; andb/orb inlined); N, Z, positive, nat, Byte.byte extracted as inductives",
     "hand-written OCaml driver (ocaml/*.ml, zarith for decimal I/O), OCaml 4.13.1",
     "Go harness (harness/*.go, build tag verif; a -race build for C13), tools/py_harness.py driving python/mcap, and Python generators/comparators/oracles (tools/*.py)",
@@ -161,9 +161,51 @@ def build_coq(log=None):
             run(["coq_makefile", "-f", "_CoqProject", "-o", "Makefile"], cwd=COQ)
         if not os.path.exists(os.path.join(COQ, "Makefile")):
             run(["coq_makefile", "-f", "_CoqProject", "-o", "Makefile"], cwd=COQ)
-        p = run(["timeout", "3000", "make", "-j%d" % NPROC], cwd=COQ, check=False)
+        # -k: keep building what does not depend on a file that fails, so that a broken obligation is attributed to
+        # the properties that depend on it (see coq_failed_for) and the others are still decided
+        p = run(["timeout", "3000", "make", "-k", "-j%d" % NPROC], cwd=COQ, check=False)
         out = p.stdout.decode(errors="replace")
         return p.returncode == 0, out
+
+
+def coq_deps():
+    """file.v -> the .v files it directly requires (from coq_makefile's dependency file)"""
+    deps = {}
+    path = os.path.join(COQ, ".Makefile.d")
+    if not os.path.exists(path):
+        return deps
+    for line in open(path):
+        m = re.match(r"(\S+)\.vo \S+\.glob [^:]*: (.*)$", line)
+        if m:
+            deps[m.group(1) + ".v"] = [d[:-1] for d in m.group(2).split() if d.endswith(".vo")]
+    return deps
+
+
+def coq_failed_files(coq_out):
+    """the .v files whose compilation failed in this build (relative to coq/), or None when that cannot be told"""
+    failed = set(re.findall(r"\*\*\* \[[^\]]*?(\S+)\.vo\] Error", coq_out))
+    failed |= set(m[:-2] for m in re.findall(r'File "\./([^"]+\.v)", line \d+, characters [^\n]*\n(?:[^\n]*\n){0,12}?Error', coq_out))
+    return set(f + ".v" for f in failed) or None
+
+
+def coq_failed_for(prop, coq_out):
+    """Which failed files does this property depend on? Returns a list (empty = its obligations were all built),
+    or None when the failure cannot be attributed (then every property counts as broken)."""
+    failed = coq_failed_files(coq_out)
+    if failed is None:
+        return None
+    deps = coq_deps()
+    seen, todo = set(), [os.path.relpath(f, COQ) for f in prop_files(prop)]
+    while todo:
+        f = todo.pop()
+        if f in seen:
+            continue
+        seen.add(f)
+        if f not in deps and not f.endswith("_gen.v"):
+            if not os.path.exists(os.path.join(COQ, f)):
+                return None
+        todo += deps.get(f, [])
+    return sorted(seen & failed)
 
 
 def build_model():
@@ -409,6 +451,10 @@ def proof_status(prop, coq_ok, coq_out):
     """Inspect the build of properties/<prop>*.v: obligations (theorems) and whether they are built."""
     theorems = []
     built = coq_ok
+    if not coq_ok:
+        # some file failed: this property is still decided when nothing it depends on is among the failures
+        mine = coq_failed_for(prop, coq_out)
+        built = mine is not None and not mine
     files = prop_files(prop)
     for pfile in files:
         theorems += re.findall(r"^\s*(?:Theorem|Corollary)\s+([A-Za-z0-9_']+)", open(pfile).read(), re.M)
